@@ -5,6 +5,7 @@ import (
 
 	"pgregory.net/rapid"
 
+	"verifharness/ref/der"
 	"verifharness/ref/pehash"
 )
 
@@ -156,7 +157,12 @@ func HostileDER(t *rapid.T, base []byte) ([]byte, string) {
 	if len(b) < 4 {
 		return b, "der:short"
 	}
-	switch rapid.IntRange(0, 5).Draw(t, "derkind") {
+	switch rapid.IntRange(0, 8).Draw(t, "derkind") {
+	case 6, 7, 8:
+		if out, class := structuralDER(t, b); class != "" {
+			return out, class
+		}
+		return b[:rapid.IntRange(0, len(b)-1).Draw(t, "cut")], "der:truncate"
 	case 0:
 		return b[:rapid.IntRange(0, len(b)-1).Draw(t, "cut")], "der:truncate"
 	case 1:
@@ -205,5 +211,108 @@ func HostileDER(t *rapid.T, base []byte) ([]byte, string) {
 			return append(append(append([]byte{}, b[:j]...), b[i:j]...), b[j:]...), "der:duplicate_slice"
 		}
 		return append(append([]byte{}, b[:i]...), b[j:]...), "der:drop_slice"
+	}
+}
+
+// structuralDER edits one element of the parsed TLV tree and re-encodes with consistent lengths, so that the
+// result is well-formed DER whose *meaning* is unexpected: an object identifier from the same family with another
+// last arc (or one arc less, or a multi-byte arc), integers of unusual value and size, empty or over-long strings,
+// sequences that lost, doubled or swapped an element. Decoders get past the syntax and into the code that
+// interprets the value.
+func structuralDER(t *rapid.T, b []byte) ([]byte, string) {
+	parsed, err := der.ParseOne(b, der.Options{})
+	if err != nil {
+		return nil, ""
+	}
+	root := parsed.Clone()
+	var all, oids, ints, strs, cons []*der.Node
+	var walk func(n *der.Node)
+	walk = func(n *der.Node) {
+		all = append(all, n)
+		switch {
+		case n.Class == der.ClassUniversal && n.Tag == der.TagOID && !n.Constructed:
+			oids = append(oids, n)
+		case n.Class == der.ClassUniversal && n.Tag == der.TagInteger && !n.Constructed:
+			ints = append(ints, n)
+		case !n.Constructed:
+			strs = append(strs, n)
+		case !n.Opaque && len(n.Children) > 0:
+			cons = append(cons, n)
+		}
+		if !n.Opaque {
+			for _, c := range n.Children {
+				walk(c)
+			}
+		}
+	}
+	walk(root)
+	pick := func(ns []*der.Node, label string) *der.Node {
+		if len(ns) == 0 {
+			return nil
+		}
+		return ns[rapid.IntRange(0, len(ns)-1).Draw(t, label)]
+	}
+	switch rapid.IntRange(0, 3).Draw(t, "structkind") {
+	case 0:
+		n := pick(oids, "whichoid")
+		if n == nil || len(n.Content) == 0 {
+			return nil, ""
+		}
+		c := append([]byte{}, n.Content...)
+		switch rapid.IntRange(0, 3).Draw(t, "oidedit") {
+		case 0, 1:
+			// another member of the same family: last arc replaced (single octet)
+			c[len(c)-1] = byte(rapid.SampledFrom([]int{0, 1, 2, 3, 4, 5, 6, 7, 8, 9, 10, 11, 12, 13, 14, 15, 16, 26, 40, 100, 127}).Draw(t, "lastarc"))
+		case 2:
+			// last arc in two octets
+			c = append(c[:len(c)-1], 0x81, byte(rapid.IntRange(0, 127).Draw(t, "lastarc2")))
+		default:
+			if len(c) < 2 {
+				return nil, ""
+			}
+			c = c[:len(c)-1]
+			c[len(c)-1] &= 0x7f
+		}
+		n.Content = c
+		return root.Encode(), "der:oid_sibling"
+	case 1:
+		n := pick(ints, "whichint")
+		if n == nil {
+			return nil, ""
+		}
+		n.Content = rapid.SampledFrom([][]byte{{}, {0}, {1}, {2}, {3}, {0x7f}, {0x80}, {0xff}, {0, 0x80}, {0x7f, 0xff, 0xff, 0xff}, {0x80, 0, 0, 0}, {0, 0xff, 0xff, 0xff, 0xff, 0xff, 0xff, 0xff, 0xff}, make([]byte, 64)}).Draw(t, "intval")
+		return root.Encode(), "der:integer_value"
+	case 2:
+		n := pick(strs, "whichstr")
+		if n == nil {
+			return nil, ""
+		}
+		switch rapid.IntRange(0, 2).Draw(t, "stredit") {
+		case 0:
+			n.Content = []byte{}
+		case 1:
+			n.Content = []byte{byte(rapid.IntRange(0, 255).Draw(t, "one"))}
+		default:
+			n.Content = append(append([]byte{}, n.Content...), FillBytes(t, rapid.SampledFrom([]int{1, 31, 32, 33, 255, 256, 4096}).Draw(t, "grow"))...)
+		}
+		return root.Encode(), "der:string_length"
+	default:
+		n := pick(cons, "whichcons")
+		if n == nil {
+			return nil, ""
+		}
+		i := rapid.IntRange(0, len(n.Children)-1).Draw(t, "child")
+		switch rapid.IntRange(0, 3).Draw(t, "consedit") {
+		case 0:
+			n.Children = append(append([]*der.Node{}, n.Children[:i]...), n.Children[i+1:]...)
+		case 1:
+			n.Children = append(append(append([]*der.Node{}, n.Children[:i+1]...), n.Children[i].Clone()), n.Children[i+1:]...)
+		case 2:
+			j := rapid.IntRange(0, len(n.Children)-1).Draw(t, "other")
+			n.Children[i], n.Children[j] = n.Children[j], n.Children[i]
+		default:
+			n.Children = []*der.Node{}
+		}
+		return root.Encode(), "der:children_edit"
 	}
 }
